@@ -169,7 +169,7 @@ class C08:
         if isdir:
             sp += [("trailing-slash", dict(path=root + "/")), ("trailing-2slash", dict(path=root + "//")),
                    ("trailing-slash-dot", dict(path=root + "/.")), ("dot-from-inside", dict(cwd=root, path=".")),
-                   ("child-dotdot", None)]
+                   ("child-dotdot", None), ("dotdot-from-child", None), ("dotdot-chain-from-grandchild", None)]
         rng.shuffle(sp)
         dotend = 0
         for kind, kw in sp[:6 if isdir else 5]:
@@ -178,7 +178,17 @@ class C08:
                 if not subdirs:
                     continue
                 kw = dict(path=os.path.join(root, subdirs[0], ".."))
-            if kind in ("trailing-slash-dot", "dot-from-inside", "child-dotdot"):
+            if kind in ("dotdot-from-child", "dotdot-chain-from-grandchild"):
+                # the path consists of upward segments only: '..' typed inside a sub-directory of the payload
+                # ('../..' inside a sub-sub-directory, 'deep/../..' one level further up)
+                subs = [os.path.join(dp, d) for dp, dns, _ in os.walk(root) for d in dns
+                        if not os.path.islink(os.path.join(dp, d))]
+                want = 1 if kind == "dotdot-from-child" else 2
+                subs = sorted(x for x in subs if os.path.relpath(x, root).count(os.sep) == want - 1)
+                if not subs:
+                    continue
+                kw = dict(cwd=subs[0], path=rng.choice(["..", "../", "./.."]) if want == 1 else rng.choice(["../..", "../../", ".././.."]))
+            if kind in ("trailing-slash-dot", "dot-from-inside", "child-dotdot", "dotdot-from-child", "dotdot-chain-from-grandchild"):
                 dotend += 1
             variants.append(variant("spelling:" + kind, **kw))
         variants.append(variant("relocated", path=os.path.join(Bp, name)))
